@@ -308,6 +308,12 @@ func c14app(st *c14stats) (out []*c12result) {
 				d.Restart() // a node re-created over its database answers the same before it commits again
 			}
 			fail := func(sig, f string, a ...interface{}) { fail(sig+phase, f, a...) }
+			// a module query at every past height first (the application serves it from a copy of the
+			// multistore loaded at that height): reading the past leaves every height as readable as it was
+			for hq := int64(1); hq <= latest; hq++ {
+				atomic.AddInt64(&st.queries, 1)
+				d.App.Query(abci.RequestQuery{Path: "/custom/pos/validators", Data: []byte(`{"Page":1,"Limit":100}`), Height: hq})
+			}
 			for _, name := range []string{"auth", "pos"} {
 				for k := range keyset[name] {
 					for _, neg := range []int64{-1, -7} {
